@@ -296,6 +296,22 @@ func (w *vfWireClient) handleFor(slot int) string {
 		}
 		return fmt.Sprint(n)
 	}
+	if slot == -5 || slot == -6 {
+		// another spelling of the number in the most recently issued handle ("01", "+1" for "1")
+		last := ""
+		for _, p := range w.replies {
+			if p != nil && p.Type == wtHandle {
+				last = p.Handle
+			}
+		}
+		if last == "" {
+			return "bogus5"
+		}
+		if slot == -5 {
+			return "0" + last
+		}
+		return "+" + last
+	}
 	if slot < 0 {
 		return fmt.Sprintf("bogus%d", -slot)
 	}
